@@ -329,8 +329,8 @@ type outcome struct {
 	OffChecked  int
 	OpCount     [256]uint32
 	Viol        *violation
-	Leak        *violation // the abandoned-evaluation-stack shape (execution goes on, exactness is off afterwards)
-	Abandoned   bool
+	Leak        *violation // the abandoned-evaluation-stack shape (execution goes on with the abandoned elements as extra roots)
+	Leaks       int
 }
 
 type violation struct {
@@ -400,6 +400,8 @@ func safeCorrect(script []byte) (ok bool, panicked bool) {
 
 type monitor struct {
 	preStacks []*vm.Stack
+	preSnap   [][]stackitem.Item
+	ghosts    []stackitem.Item
 	w         *walker
 	seen      map[stackitem.Item]struct{}
 	bounds    []bool
@@ -432,6 +434,7 @@ func boundaries(script []byte, into []bool) []bool {
 func (m *monitor) run(c *caseCfg) (o outcome) {
 	script := c.Script
 	m.w = newWalker()
+	m.ghosts = nil
 	o.Correct, o.StaticPanic = safeCorrect(script)
 	var bounds []bool
 	if o.Correct {
@@ -535,11 +538,18 @@ func (m *monitor) run(c *caseCfg) (o outcome) {
 			}
 		}
 		preDepth := len(v.Istack())
-		if len(c.Subs) > 0 && !o.EverCyclic && !o.Abandoned {
-			m.preStacks = m.preStacks[:0]
+		if len(c.Subs) > 0 && !o.EverCyclic {
+			// evaluation stacks of the script contexts and (a sub-stack shares its backing
+			// array with its parent, so the copy has to be taken now) their content.
+			m.preStacks, m.preSnap = m.preStacks[:0], m.preSnap[:0]
 			for _, cx := range v.Istack() {
 				if s := cx.Estack(); len(m.preStacks) == 0 || m.preStacks[len(m.preStacks)-1] != s {
 					m.preStacks = append(m.preStacks, s)
+					var snap []stackitem.Item
+					if len(m.preStacks) > 1 {
+						snap = s.ToArray()
+					}
+					m.preSnap = append(m.preSnap, snap)
 				}
 			}
 		}
@@ -580,6 +590,17 @@ func (m *monitor) run(c *caseCfg) (o outcome) {
 		w := m.w
 		w.walkVM(v)
 		refs := v.VerifRefs()
+		// elements abandoned by earlier cross-context unwinding are extra roots of the
+		// VM's accounting (not of what is reachable)
+		ghostCount := 0
+		if len(m.ghosts) > 0 {
+			live := w.count
+			for _, it := range m.ghosts {
+				w.count++
+				w.visit(it)
+			}
+			ghostCount, w.count = w.count-live, live
+		}
 		if w.cyclic {
 			o.EverCyclic = true
 		}
@@ -617,34 +638,56 @@ func (m *monitor) run(c *caseCfg) (o outcome) {
 			fail("try-nesting-exceeded:after-"+op.String(), fmt.Sprintf("%d nested try blocks after a non-faulting %s (limit %d)", o.MaxTry, op, limTryDepth), ip, op)
 		case refs < w.count:
 			fail("item-counter-undercounts:after-"+op.String(), fmt.Sprintf("VM item counter %d < %d items actually reachable after %s (cycle built so far: %v)", refs, w.count, op, o.EverCyclic), ip, op)
-		case refs != w.count && !o.EverCyclic && !o.Abandoned:
-			// one specific shape gets its own signature: an exception unwound through a
-			// script context that had its own, non-empty evaluation stack.
-			left := 0
+		case refs != w.count+ghostCount && !o.EverCyclic:
+			// One specific shape has its own signature: an exception unwound through a script
+			// context with its own, non-empty evaluation stack. It is accepted only if the
+			// abandoned elements explain the whole difference; they then stay in the model
+			// as extra roots, so exactness keeps being checked for the rest of the run.
+			var left []stackitem.Item
 			if len(c.Subs) > 0 && op != opcode.RET && len(ist) < preDepth {
-				for _, ps := range m.preStacks {
+				for i, ps := range m.preStacks {
 					alive := ps == v.Estack()
 					for _, cx := range ist {
 						alive = alive || cx.Estack() == ps
 					}
 					if !alive {
-						left += ps.Len()
+						// the throwing instruction only popped from the top before the
+						// exception; the object's length is still valid, its backing array
+						// may already be overwritten by the handler's stack.
+						left = append(left, m.preSnap[i][:min(ps.Len(), len(m.preSnap[i]))]...)
 					}
 				}
 			}
-			if left > 0 {
-				o.Abandoned = true
-				o.Leak = &violation{Sig: "item-counter-overcounts-without-cycle:exception-unwinds-script-context-with-nonempty-evaluation-stack",
-					Detail: fmt.Sprintf("after %s unwound %d frame(s) to a handler in an outer script context, the VM item counter is %d but only %d items are reachable: the %d element(s) left on the unloaded context's own evaluation stack stay counted (no cyclic structure was ever built)", op, preDepth-len(ist), refs, w.count, left),
-					Step:   o.Steps, IP: ip, Op: op.String()}
+			explained := false
+			if len(left) > 0 {
+				before := w.count
+				for _, it := range left {
+					w.count++
+					w.visit(it)
+				}
+				explained = refs == w.count+ghostCount
+				if explained {
+					ghostCount, w.count = 0, before // recomputed from m.ghosts at the next step
+				} else {
+					w.count = before
+				}
+			}
+			if explained {
+				m.ghosts = append(m.ghosts, left...)
+				if o.Leak == nil {
+					o.Leak = &violation{Sig: "item-counter-overcounts-without-cycle:exception-unwinds-script-context-with-nonempty-evaluation-stack",
+						Detail: fmt.Sprintf("after %s unwound %d frame(s) to a handler in an outer script context, the VM item counter is %d but only %d items are reachable from stacks and slots: the %d element(s) left on the unloaded context's own evaluation stack (and what only they reference) stay counted; no cyclic structure was ever built", op, preDepth-len(ist), refs, w.count, len(left)),
+						Step:   o.Steps, IP: ip, Op: op.String()}
+				}
+				o.Leaks++
 			} else {
-				fail("item-counter-overcounts-without-cycle:after-"+op.String(), fmt.Sprintf("VM item counter %d > %d items actually reachable after %s although no cyclic structure was ever built", refs, w.count, op), ip, op)
+				fail("item-counter-overcounts-without-cycle:after-"+op.String(), fmt.Sprintf("VM item counter %d != %d items actually reachable after %s although no cyclic structure was ever built (%d of the expected count are elements abandoned by earlier cross-context unwinding)", refs, w.count+ghostCount, op, ghostCount), ip, op)
 			}
 		}
 		if o.Viol != nil {
 			return
 		}
-		if refs > w.count {
+		if refs > w.count+ghostCount {
 			o.OverCount++
 		}
 	}
